@@ -142,7 +142,7 @@ def r_framefile(prog, tier):
                           (w.lineno, 'preamble before' if what == 'begin' else 'suffix after') + ' its trees', ok, why,
                           construct='frame:%s:%d' % (what, regions), line=w.lineno))
     if regions < 2:
-        raise Unrecognised('transform.run: %d output regions with a per-tree writer call (2 expected)' % regions)
+        raise Unrecognised('transform.run: %d output regions with a per-tree writer call (2 expected)' % regions, partial=obs)
     # ---- ONCE: the split branch hands every tree out exactly once, in order
     iters = [n for n in cfg.eval_nodes() if n.kind == 'stmt' and isinstance(n.ast, ast.Assign)
              and isinstance(n.ast.value, ast.Call) and unparse(n.ast.value.func) == 'iter']
@@ -150,7 +150,7 @@ def r_framefile(prog, tier):
              and isinstance(n.ast.value, ast.Call)
              and prog.callee(n.ast.value, f) == ('treeoutput', 'parse_split_specification')]
     if len(specs) != 1:
-        raise Unrecognised('transform.run: %d calls of parse_split_specification' % len(specs))
+        raise Unrecognised('transform.run: %d calls of parse_split_specification' % len(specs), partial=obs)
     sp = specs[0]
     size_arg = sp.ast.value.args[1] if len(sp.ast.value.args) > 1 else None
     L = None
@@ -194,7 +194,7 @@ def r_framefile(prog, tier):
                         if d and d[0] == 'treeoutput' and d[1] == '':
                             wr_split = (n, sub)
     if wr_split is None:
-        raise Unrecognised('transform.run: no writer call in the split branch')
+        raise Unrecognised('transform.run: no writer call in the split branch', partial=obs)
     wn, wcall = wr_split
     a0 = wcall.args[0]
     if isinstance(a0, ast.Call) and unparse(a0.func) == 'next' and isinstance(a0.args[0], ast.Name):
@@ -223,6 +223,30 @@ def r_framefile(prog, tier):
             ok_iter, why = False, 'the iterator `%s` is created inside a loop: every part starts again at the first tree' % itn
     elif isinstance(a0, ast.Name):
         why = 'trees are not taken from a single shared iterator (`%s`): not modelled' % unparse(a0)
+        # slices: `part = L[off:off + size]` per part, with `off` moved on by the size of every part
+        src = None
+        for (_, v_) in name_defs(f, a0.id):
+            if isinstance(v_, tuple) and v_[0] == 'iter':
+                src = v_[1]
+                if isinstance(src, ast.Call) and unparse(src.func) == 'enumerate' and src.args:
+                    src = src.args[0]
+        if isinstance(src, ast.Name):
+            dd_ = [d_ for (_, d_) in name_defs(f, src.id) if isinstance(d_, ast.AST)]
+            src = dd_[0] if len(dd_) == 1 else None
+        if isinstance(src, ast.Subscript) and isinstance(src.slice, ast.Slice) and L and unparse(src.value) == L \
+                and isinstance(src.slice.lower, ast.Name) and src.slice.upper is not None:
+            off = src.slice.lower.id
+            up = unparse(src.slice.upper)
+            moves = [(nid, v_) for (nid, v_) in name_defs(f, off) if cfg.nodes[nid].loops]
+            for (nid, v_) in moves:
+                if isinstance(v_, tuple) and v_[0] == 'aug' and isinstance(v_[1].op, ast.Add):
+                    ok_iter, why = None, 'slices `%s[%s:%s]` with `%s` added up: not followed further' % (L, off, up, off)
+                elif isinstance(v_, ast.AST) and off not in [x_.id for x_ in ast.walk(v_) if isinstance(x_, ast.Name)]:
+                    ok_iter = False
+                    why = 'the parts are the slices `%s[%s:%s]`, but `%s = %s` (line %d) sets the start of the next part without ' \
+                          'adding to it: from the third part on trees are written twice and others to no part' % (
+                              L, off, up, off, unparse(v_), cfg.nodes[nid].lineno)
+                    break
     obs.append(Ob('R-FRAMEFILE/ONCE', f.fq, 'every tree goes to exactly one part, in the original order', ok_iter, why,
                   construct='once-iter', line=wn.lineno))
     # ---- both branches apply the transformations the same way
@@ -231,7 +255,7 @@ def r_framefile(prog, tier):
         if n.kind == 'iter' and unparse(n.ast.iter) == 'args.trans':
             tl.append(n)
     if len(tl) != 2:
-        raise Unrecognised('transform.run: %d loops over args.trans (2 expected)' % len(tl))
+        raise Unrecognised('transform.run: %d loops over args.trans (2 expected)' % len(tl), partial=obs)
     norm = []
     for n in tl:
         alg = unparse(n.ast.target)
@@ -485,7 +509,7 @@ def r_splitarith(prog, tier):
     # the list returned
     rets = [n for n in walk_own(f.node) if isinstance(n, ast.Return)]
     if len(rets) != 1 or not isinstance(rets[0].value, ast.Name):
-        raise Unrecognised('parse_split_specification does not return a single list name')
+        raise Unrecognised('parse_split_specification does not return a single list name', partial=obs)
     P = rets[0].value.id
     nstores = 0
     for n in cfg.eval_nodes():
@@ -565,6 +589,22 @@ def r_splitarith(prog, tier):
         obs.append(Ob('R-SPLITARITH', f.fq, 'part size `%s` is an exact non-negative integer' % unparse(val)[:60], ok, why,
                       construct='split-%s:%s' % (what, unparse(val)), line=n.lineno))
         if what == 'add':
+            # the remainder is handed out whatever the specification looks like: a test of the specification text on the way
+            # here, with a way around it that neither stores a part nor raises, leaves trees that belong to no part
+            spec_ = f.params[0]
+            stores_ = frozenset(m_.id for m_ in cfg.eval_nodes() if m_.kind == 'stmt' and (
+                isinstance(m_.ast, ast.Raise) or (isinstance(m_.ast, (ast.Assign, ast.AugAssign)) and unparse(
+                    m_.ast.targets[0] if isinstance(m_.ast, ast.Assign) else m_.ast.target).startswith(P + '['))))
+            for a_ in cfg.assumes_at(n.id):
+                if a_.loops or spec_ not in [x_.id for x_ in ast.walk(a_.ast) if isinstance(x_, ast.Name)]:
+                    continue
+                other_ = [m_ for m_ in cfg.nodes if m_.kind == 'assume' and m_.ast is a_.ast and m_.pol != a_.pol]
+                if other_ and cfg.exit in cfg.reach(other_[0].id, avoid=stores_):
+                    obs.append(Ob('R-SPLITARITH', f.fq, 'the trees no part asks for are handed out whatever the specification looks like',
+                                  False, 'the remainder is added only under `%s%s`; otherwise the parts are returned as they are and '
+                                  'their sizes no longer sum to the number of trees: the surplus trees are written to no part' % (
+                                      '' if a_.pol else 'not ', unparse(a_.ast)[:50]),
+                                  construct='split-remainder-cond:' + unparse(a_.ast)[:40], line=n.lineno))
             idx = unparse(st.target.slice)
             okf = True if idx == '%s.index(max(%s))' % (P, P) else None
             whyf = None
@@ -585,7 +625,7 @@ def r_splitarith(prog, tier):
                           'on ties', okf, whyf or ('index %s' % idx if okf else 'remainder added at `%s`, not at %s.index(max(%s))'
                           % (idx, P, P)), construct='split-remainder:' + idx, line=n.lineno))
     if nstores < 4:
-        raise Unrecognised('parse_split_specification: %d stores into the part list (at least 4 expected)' % nstores)
+        raise Unrecognised('parse_split_specification: %d stores into the part list (at least 4 expected)' % nstores, partial=obs)
     raises = [n for n in cfg.eval_nodes() if n.kind == 'stmt' and isinstance(n.ast, ast.Raise)]
     for r in raises:
         ok = r.ast.exc is not None and unparse(r.ast.exc).startswith('ValueError(')
@@ -736,10 +776,16 @@ def r_state(prog, tier):
                             for p_ in parts for a_ in fname_alias)
                 if want1 in parts and cmpok and len(parts) == 2:
                     fresh_test = n
+                # the same test with the absent attribute folded into a default: getattr(F, 'fn', <sentinel>) != file name
+                gpref = "getattr(%s, 'fn', " % nm
+                if len(parts) == 1 and parts[0][0] == 'cmp' and parts[0][2] == '==' and any(
+                        (x_.startswith(gpref) and y_ in fname_alias) for (x_, y_) in
+                        ((parts[0][1], parts[0][3]), (parts[0][3], parts[0][1]))):
+                    fresh_test = n
         ok = fresh_test is not None and cfg.always_with(cfg.entry, fresh_test.id)
         if not ok:
             # positive evidence: the cached table is used although nothing compares the cached file name
-            compares = any('.fn' in unparse(n.ast) and n.kind == 'test' for n in cfg.eval_nodes())
+            compares = any(('.fn' in unparse(n.ast) or "getattr(%s, 'fn'" % nm in unparse(n.ast)) and n.kind == 'test' for n in cfg.eval_nodes())
             ok = None if compares else False
         obs.append(Ob('R-STATE/G3', f.fq, 'the cached terminal file is reused only when the file name is unchanged', ok,
                       'reload unless hasattr(%s, \'fn\') and %s.fn == params[\'terminalfile\']' % (nm, nm) if ok else
@@ -750,7 +796,7 @@ def r_state(prog, tier):
         # a statement is inside the reload block iff it cannot be reached when the freshness test is false
         fb = cfg.branch.get(fresh_test.id, {}).get(False)
         if fb is None:
-            raise Unrecognised('%s: freshness test has no else path' % f.fq)
+            raise Unrecognised('%s: freshness test has no else path' % f.fq, partial=obs)
         reach_false = cfg.reach(fb) | {fb}
         from ..core import MUTATORS
         for n in cfg.eval_nodes():
@@ -1121,7 +1167,7 @@ def r_optside(prog, tier):
             obs.append(Ob('R-OPTSIDE', f.fq, 'dispatch `%s` receives the options of its own side' % unparse(x.func)[:60],
                           ok, why, construct='optside:%s:%s' % (unparse(x.func)[:60], star[:40]), line=x.lineno))
     if n < 8:
-        raise Unrecognised('R-OPTSIDE: %d dispatch sites with option dictionaries (at least 8 expected)' % n)
+        raise Unrecognised('R-OPTSIDE: %d dispatch sites with option dictionaries (at least 8 expected)' % n, partial=obs)
     return obs, {'dispatch_sites': n}
 
 
@@ -1202,6 +1248,6 @@ def r_pertree(prog, tier):
                               if bad is not None else 'not under a condition on %s' % (sorted(counters) or 'a counter'),
                               construct='pertree:' + unparse(uses[0])[:60], line=m.lineno))
     if nsites < 4:
-        raise Unrecognised('R-PERTREE: %d per-tree steps found in the drivers (at least 4 expected)' % nsites)
+        raise Unrecognised('R-PERTREE: %d per-tree steps found in the drivers (at least 4 expected)' % nsites, partial=obs)
     obs.extend(_chained_apply(prog))
     return obs, {'per_tree_steps': nsites}
